@@ -23,7 +23,7 @@ TRUSTED = [
     "py2lean.Tr statement-level translator (for -> structural recursion, while -> explicit fuel with an OutOfFuel exception, "
     "early return / raise -> Flow / Except, tuples, slices, item access with explicit IndexError)",
     "lean/PyGqlModel/PyPrelude.lean: the reading of Python built-ins used by translated code (str = list of code points, int = Int, "
-    "len, enumerate, slicing with CPython's bound normalisation, xs[i] / xs[i] = v / pop with IndexError, str.lstrip(<literal set>), "
+    "len, enumerate, range, slicing with CPython's bound normalisation, xs[i] / xs[i] = v / pop with IndexError, str.lstrip(<literal set>), "
     "str.join, min / max, re.split on the literal pattern \\r\\n|[\\n\\r] (pattern text checked at extraction))",
     "exceptions are identified by class name only; `raise Cls(args)` keeps no arguments",
 ]
@@ -213,6 +213,9 @@ def tr_lexer(ctx):
     read_digits = py2lean.translate_function(
         src, "_read_over_digits", "Lexer._read_over_digits", cls="Lexer", params=dict(st), ret="Unit", self_state=["_position"],
         consts=consts, fuel=["len(self__source) - self__position + 1"])
+    read_ellipsis = py2lean.translate_function(
+        src, "_read_ellipsis", "Lexer._read_ellipsis", cls="Lexer", params=dict(st), ret=("Tuple", INT, INT),
+        self_state=["_position"], externals={"Ellip": Ext("Py.tok2", ("Tuple", INT, INT))})
     read_integer = py2lean.translate_function(
         src, "_read_over_integer", "Lexer._read_over_integer", cls="Lexer", params=dict(st), ret="Unit", self_state=["_position"],
         consts=consts, methods={"_read_over_digits": "Lexer._read_over_digits"})
@@ -242,8 +245,8 @@ def tr_lexer(ctx):
             "   the exception arguments (position, source) are dropped; `self._read_over_digits()` is the translated method above run on\n"
             "   the current attribute values; the default parameter `__ignored` is the module literal IGNORED_CHARS. -/")
     return {"PyGqlModel/Generated/TrLexer.lean":
-            _file("src/py_gql/lang/lexer.py (Lexer._read_name, _read_over_digits, _read_over_integer, _read_over_whitespace)",
-                  [read_name, read_digits, read_integer, read_ws], note)}
+            _file("src/py_gql/lang/lexer.py (Lexer._read_name, _read_over_digits, _read_over_integer, _read_over_whitespace, _read_ellipsis)",
+                  [read_name, read_digits, read_integer, read_ws, read_ellipsis], note)}
 
 
 def tr_c01(ctx):
